@@ -35,11 +35,16 @@ Qed.
 (* ---------- documented table ---------- *)
 Lemma pos_check_doc p t : pos_check doc_table p t = true <-> pos_demands p t.
 Proof.
-  destruct p, t; cbn; split; intros H; try reflexivity; try discriminate.
+  destruct p, t; cbn; split; intros H; try reflexivity; try discriminate; try exact I;
+    try (left; reflexivity); try (right; eexists; reflexivity);
+    destruct H as [H|[e' H]]; discriminate.
 Qed.
 
 Lemma pos_check_impl_of_doc p t : pos_demands p t -> pos_check impl_table p t = true.
-Proof. destruct p, t; cbn; intros H; try reflexivity; try discriminate. Qed.
+Proof.
+  destruct p, t; cbn; intros H; try reflexivity; try discriminate;
+    destruct H as [H|[e' H]]; discriminate.
+Qed.
 
 Lemma param_decl_ok T t :
   param_decl_kinds T = [KInt; KEnum] ->
@@ -140,7 +145,7 @@ Proof.
   induction fs as [|f fs IH]; intros j; [reflexivity|].
   cbn [pass_loop].
   destruct (negb (mem_kind (kind_of f) (pass_checked_kinds impl_table))); [apply IH|].
-  assert (pass_type_ok impl_table f f = true) by (destruct f; reflexivity).
+  assert (pass_type_ok impl_table f f = true) by (destruct f; try reflexivity; cbn; apply N.eqb_refl).
   rewrite H. cbn [pass_kind impl_table negb orb]. apply IH.
 Qed.
 
@@ -163,12 +168,10 @@ Proof.
 Qed.
 
 (* ---------- implementation table: guarded soundness ---------- *)
-Lemma pos_check_impl_guarded p t :
-  pos_check impl_table p t = true ->
-  (position_eqb p PEnumValue && match t with TInt => false | _ => true end) = false ->
-  pos_demands p t.
+Lemma pos_check_impl_guarded p t : pos_check impl_table p t = true -> pos_demands p t.
 Proof.
-  destruct p, t; cbn; intros H Q; try reflexivity; try discriminate.
+  destruct p, t; cbn; intros H; try reflexivity; try discriminate; try exact I;
+    try (left; reflexivity); try (right; eexists; reflexivity).
 Qed.
 
 Lemma pass_loop_impl_guarded fs : forall ts j,
@@ -180,7 +183,8 @@ Proof.
   cbn [pass_loop] in HP.
   assert (f = t /\ pass_loop impl_table fs ts (S j) = PRok) as [-> HP'].
   { destruct f, t; cbn in HP, Q1; try discriminate; try (split; [reflexivity|assumption]).
-    apply negb_false_iff in Q1. apply N.eqb_eq in Q1. subst. split; [reflexivity|assumption]. }
+    destruct (N.eqb e e0) eqn:E; cbn in HP; try discriminate.
+    apply N.eqb_eq in E. subst. split; [reflexivity|assumption]. }
   f_equal. eapply IH; eauto.
 Qed.
 
@@ -194,12 +198,12 @@ Proof.
   - apply negb_false_iff in HQ.
     destruct (typecheck impl_table G e) as [t|q] eqn:E; [|discriminate].
     exists t. split; [apply typecheck_sound_guarded_lem; assumption|]. eapply IH; eauto.
-  - apply orb_false_iff in HQ. destruct HQ as [Q1 Q2]. apply negb_false_iff in Q1.
+  - apply negb_false_iff in HQ. rename HQ into Q1.
     destruct (typecheck impl_table G e) as [t|q] eqn:E; [|discriminate].
     destruct (pos_check impl_table p t) eqn:PC; [|discriminate].
     split; [|eapply IH; eauto].
     exists t. split; [apply typecheck_sound_guarded_lem; assumption|].
-    apply pos_check_impl_guarded; [assumption|]. destruct t; assumption.
+    apply pos_check_impl_guarded; assumption.
   - apply orb_false_iff in HQ. destruct HQ as [Q1 Q2]. apply negb_false_iff in Q1.
     destruct (check_actuals impl_table G acts 0) as [ts|[j q]] eqn:C; [|discriminate].
     cbn [pass_arity impl_table andb] in H.
@@ -223,20 +227,42 @@ Definition wit_bool_param : list item := [IPass [TInt] [XBool true]].
 Lemma not_well_typed_by_doc G m : typecheck_items doc_table G m 0 <> MOk -> ~ well_typed_items G m.
 Proof. intros H1 H2. apply H1. apply typecheck_items_doc_iff_lem. assumption. Qed.
 
-Lemma module_refuted_enum_param_lem :
-  typecheck_module impl_table G0 wit_enum_param = MOk /\ ~ well_typed_items G0 wit_enum_param.
+(* the former witnesses (F14, boolean enum value, boolean actual) are now rejected, with a message *)
+Lemma enum_param_rejected_lem :
+  typecheck_module impl_table G0 wit_enum_param = MErr 0 0 [] /\ ~ well_typed_items G0 wit_enum_param.
 Proof. split; [reflexivity|]. apply not_well_typed_by_doc. vm_compute. discriminate. Qed.
 
-Lemma module_refuted_enum_value_lem :
-  typecheck_module impl_table G0 wit_enum_value = MOk /\ ~ well_typed_items G0 wit_enum_value.
+Lemma enum_value_rejected_lem :
+  typecheck_module impl_table G0 wit_enum_value = MErr 0 0 [] /\ ~ well_typed_items G0 wit_enum_value.
 Proof. split; [reflexivity|]. apply not_well_typed_by_doc. vm_compute. discriminate. Qed.
+
+Lemma bool_param_rejected_lem : typecheck_module impl_table G0 wit_bool_param = MErr 0 0 [].
+Proof. reflexivity. Qed.
 
 Lemma module_refuted_expr_lem :
   typecheck_module impl_table G0 [ILet 0 wit_enum_ordering] = MOk /\ ~ well_typed_items G0 [ILet 0 wit_enum_ordering].
 Proof. split; [reflexivity|]. apply not_well_typed_by_doc. vm_compute. discriminate. Qed.
 
-Lemma crash_witness_lem : typecheck_module impl_table G0 wit_bool_param = MCrash 0.
-Proof. reflexivity. Qed.
+Lemma pass_loop_impl_no_crash fs : forall ts j, pass_loop impl_table fs ts j <> PRcrash.
+Proof.
+  induction fs as [|f fs IH]; intros [|t ts] j; cbn [pass_loop]; try discriminate.
+  destruct (negb (mem_kind (kind_of f) (pass_checked_kinds impl_table))); [apply IH|].
+  destruct (negb (pass_kind impl_table) || pass_type_ok impl_table f t); [apply IH|].
+  cbn. discriminate.
+Qed.
+
+Lemma typecheck_items_impl_no_crash_lem m : forall G k k', typecheck_items impl_table G m k <> MCrash k'.
+Proof.
+  induction m as [|it r IH]; intros G k k'; [discriminate|].
+  destruct it as [v e|p e|fs acts|t]; cbn [typecheck_items].
+  - destruct (typecheck impl_table G e); [apply IH|discriminate].
+  - destruct (typecheck impl_table G e); [|discriminate]. destruct (pos_check impl_table p t); [apply IH|discriminate].
+  - destruct (check_actuals impl_table G acts 0) as [ts|[j q]]; [|discriminate].
+    destruct (pass_arity impl_table && negb (Nat.eqb (length fs) (length ts))); [discriminate|].
+    destruct (pass_loop impl_table fs ts 0) eqn:PL; [apply IH|discriminate|].
+    exfalso. eapply pass_loop_impl_no_crash; eauto.
+  - destruct (mem_kind (kind_of t) (param_decl_kinds impl_table)); [apply IH|discriminate].
+Qed.
 
 (* ---------- error sites ---------- *)
 Lemma nth_error_Some_lt {A} (l : list A) n x : nth_error l n = Some x -> n < length l.
